@@ -27,7 +27,7 @@ class Scanner:
     def __init__(self, repo: Repo):
         self.repo = repo
         self.mod = repo.mod("compiler")
-        self.fn = self.mod.func("compile_code")
+        self.fn = self.mod.anchor("compile_code")
         self.cfg = CFG(self.fn)
         self.rd = ReachingDefs(self.cfg)
         self.fields = option_fields(repo)
